@@ -138,10 +138,13 @@ def check_e2e(version: str, payload: str) -> list:
     return viols
 
 
-def long_run(version: str) -> list:
+def long_run(job) -> list:
     """One decoder object handles a long run of distinct messages (more than any plausible cache holds), then
     meets every one of them again, forwards and backwards; a second decoder under another protocol version is
-    used in between. Every decode must still give exactly the spelled fields."""
+    used in between. Every decode must still give exactly the spelled fields. `reset` = (k, to): after k lines
+    the protocol of the decoder is set again (to the same version, or to another one and back), as a gateway
+    does when the version report arrives after its first lines."""
+    version, reset = (job, None) if isinstance(job, str) else job
     viols = []
     sch = MessageSchema()
     sch.set_protocol(get_protocol(version))
@@ -156,12 +159,19 @@ def long_run(version: str) -> list:
     msgs += [(n, 255, 3, 0, t, "i") for n in range(0, 60) for t in (0, 6, 11)]
 
     def bad(k, f, what):
-        viols.append((f"C01|long-run-{k}|semicolon=False", f"[{version}] after {len(msgs)} distinct messages on one decoder, message {f}: {what}", {"version": version, "mode": "longrun"}))
+        viols.append((f"C01|long-run-{k}|semicolon=False", f"[{version}] one decoder, {len(msgs)} distinct messages, protocol set again {reset}: message {f}: {what}", {"version": version, "mode": "longrun", "reset": list(reset) if reset else None}))
 
     seq = msgs + msgs + msgs[::-1]
     for i, f in enumerate(seq):
         line = R.enc(*f)
         try:
+            if reset and i == reset[0]:
+                if reset[1] != version:
+                    sch.set_protocol(get_protocol(reset[1]))
+                    m = sch.load(R.enc(1, 1, 1, 0, 2, "between"))
+                    if fields_of(m) != (1, 1, 1, 0, 2, "between"):
+                        bad("decode-after-switch", f, f"decoded to {fields_of(m)}")
+                sch.set_protocol(get_protocol(version))
             if i % 3 == 0:
                 g = msgs[(i * 7 + 3) % len(msgs)]
                 o = other.load(R.enc(*g))
@@ -177,6 +187,62 @@ def long_run(version: str) -> list:
                 break
         except Exception as exc:  # noqa: BLE001
             bad(f"raised:{type(exc).__name__}", f, f"{exc}")
+            break
+    return viols
+
+
+def gateway_run(version: str) -> list:
+    """Through a real gateway whose version report arrives after its first lines: a log line, the version
+    reply, then several hundred distinct lines; each must be yielded with exactly the spelled fields."""
+    viols = []
+    s = Session(None)
+    lines = ["0;255;3;0;9;starting", f"0;255;3;0;2;{version}"]
+    lines += [f"{n};255;0;0;17;{version}" for n in range(1, 201)]
+    lines += [f"{n};{c};0;0;3;d{c}" for n in range(1, 60) for c in (0, 1, 2)]
+    lines += [f"{n};{c};1;{a};2;v{n}" for n in range(1, 60) for c in (0, 1, 2) for a in (0, 1)]
+    lines += lines[2:202]
+    for i, ln in enumerate(lines):
+        out = s.line(ln)
+        want = tuple(ln.split(";", 5))
+        got = tuple(str(x) for x in out.fields) if out.kind == "yield" else None
+        if out.kind != "yield" or got != want:
+            viols.append((f"C01|gateway-run|semicolon=False", f"[{version}] line #{i} {ln!r} of a long session (version reported after the first line): {out.describe()}", {"version": version, "mode": "gatewayrun"}))
+            break
+    return viols
+
+
+def after_activity(version: str) -> list:
+    """The codec in a process that has used the rest of the library: a persistence file was saved and loaded
+    (with and without error), a gateway ran a session with persistence configured, another decoder under
+    another version rejected ill-formed lines. Then the field grid (broadcast id 255 included) must still
+    round-trip exactly as in a process that did nothing else."""
+    from aiomysensors.model.node import Child, Node
+
+    from .. import pers
+
+    viols = []
+    nodes = {0: Node(0, 18, "2.2.0"), 1: Node(1, 17, "2.2", children={3: Child(3, 6, values={2: "on"})}, battery_level=7), 254: Node(254, 17, "1.4")}
+    kind, val, v = pers.save_nodes(nodes)
+    if kind == "ok":
+        pers.load_bytes(bytes(v.files[pers.PATH]))
+        pers.load_bytes(bytes(v.files[pers.PATH]), nodes=dict(nodes))
+    pers.load_bytes(b"{not json")
+    pers.load_bytes(b'{"1": {"node_id": 1}}')
+    pers.load_bytes(None)
+    s = Session("2.2" if version != "2.2" else "2.0", reset_modules=False)
+    for ln in ("0;255;0;0;18;2.2", "255;255;3;0;3;", "5;255;0;0;17;2.2", "5;1;0;0;3;", "5;1;1;0;2;x", "bad", "5;255;3;0;0;300", "5;9;1;0;2;1", "5;255;3;0;32;500"):
+        s.line(ln)
+    s.send(Message(5, 1, 1, 0, 2, "y"))
+    s.send(Message(255, 255, 3, 0, 20, ""))
+    grid = field_grid(QUICK)
+    n = 0
+    for head in grid:
+        for p in ("", "a;b"):
+            n += 1
+            for k, w, rep in check_codec(version, head + (p,)):
+                rep = dict(rep, mode="after-activity")
+                viols.append((k.replace("C01|", "C01|after-activity-", 1), "in a process that has loaded and saved a persistence file and run a gateway session: " + w, rep))
+        if len(viols) > 20:
             break
     return viols
 
@@ -214,7 +280,11 @@ def run(ctx: core.Ctx) -> core.Report:
     pc = max(1, len(pls) // (ctx.workers * 2))
     jobs2 = [(v, pls[i : i + pc]) for v in R.VERSIONS for i in range(0, len(pls), pc)]
     res2 = core.pmap(job_e2e, jobs2, ctx.workers, chunksize=1)
-    lres = core.pmap(long_run, list(R.VERSIONS), ctx.workers, chunksize=1)
+    ljobs = list(R.VERSIONS) + [(v, r) for v in R.VERSIONS for r in ((1, v), (3, v), (100, v), (1, "2.2" if v != "2.2" else "1.4"), (127, "2.0" if v != "2.0" else "1.5"))]
+    lres = core.pmap(long_run, ljobs, ctx.workers, chunksize=1)
+    lres += core.pmap(gateway_run, list(R.VERSIONS), ctx.workers, chunksize=1)
+    # last: these jobs deliberately leave the worker processes "used"
+    lres += core.pmap(after_activity, list(R.VERSIONS), ctx.workers, chunksize=1)
     total = sum(r[0] for r in res) + sum(r[0] for r in res2)
     semi = sum(r[1] for r in res) + sum(r[1] for r in res2)
     viols = [core.Violation(k, w, rep) for r in res + res2 for k, w, rep in r[2]]
@@ -222,7 +292,7 @@ def run(ctx: core.Ctx) -> core.Report:
     cov = {
         "evaluations": total,
         "distinct_nontrivial": semi,
-        "rule": "field grid (filtered by the cross-field rules) x all payload strings up to length L over sigma without trailing whitespace, x five versions; each distinct message goes through encode, decode, re-encode of the real codec; set messages additionally through Gateway.send / Gateway.listen; non-trivial = payload contains the ';' delimiter",
+        "rule": "field grid (filtered by the cross-field rules) x all payload strings up to length L over sigma without trailing whitespace, x five versions; each distinct message goes through encode, decode, re-encode of the real codec; set messages additionally through Gateway.send / Gateway.listen; plus long runs on one decoder (protocol set again after 1/3/100/127 lines, to the same or via another version), a long gateway session whose version report arrives late, and the reduced grid re-run in a process that has used persistence and a gateway (not counted in evaluations); non-trivial = payload contains the ';' delimiter",
         "exhaustive": True,
         "bounds": {"field_combinations": len(grid), "payload_strings": len(pls), "sigma": alpha["sigma"], "L": alpha["L"]},
         "samples": [list(grid[ctx.seed % len(grid)]) + [pls[(ctx.seed * 7 + 11) % len(pls)]], list(grid[-1]) + [pls[-1]], [1, 1, 1, 0, 2, pls[len(pls) // 2]]],
@@ -236,8 +306,14 @@ def run(ctx: core.Ctx) -> core.Report:
 
 
 def replay(data: dict) -> dict:
+    if data.get("mode") == "gatewayrun":
+        v = gateway_run(data["version"])
+        return {"violated": bool(v), "violations": [{"key": k, "what": w} for k, w, _ in v]}
+    if data.get("mode") == "after-activity":
+        v = after_activity(data["version"])
+        return {"violated": bool(v), "violations": [{"key": k, "what": w} for k, w, _ in v]}
     if data.get("mode") == "longrun":
-        v = long_run(data["version"])
+        v = long_run((data["version"], tuple(data["reset"])) if data.get("reset") else data["version"])
         return {"violated": bool(v), "violations": [{"key": k, "what": w} for k, w, _ in v]}
     f = tuple(data["fields"])
     v = check_codec(data["version"], f) if data["mode"] == "codec" else check_e2e(data["version"], f[5])
